@@ -32,7 +32,10 @@ ASSUME \A i \in 1..Len(Tuples) : LegalTuple(Tuples[i])
 
 VARIABLES ti, c
 vars == <<ti, c>>
-Cases(T) == IF MODE = "spell" THEN {[s |-> x[1], kind |-> "acc", err |-> "", what |-> "spelling", cost |-> x[2]] : x \in Spellings(T, K)}
+\* the deviation bound is K, one less for tuples whose canonical spelling is longer than 24 characters when K >= 3
+\* (the cross product of their per-character forms exceeds what TLC enumerates in the thorough budget)
+KFor(T) == IF K >= 3 /\ Len(Glue(CanonParts(T))) > 24 THEN K - 1 ELSE K
+Cases(T) == IF MODE = "spell" THEN {[s |-> x[1], kind |-> "acc", err |-> "", what |-> "spelling", cost |-> x[2]] : x \in Spellings(T, KFor(T))}
             ELSE {[s |-> f.s, kind |-> "err", err |-> f.err, what |-> f.what, cost |-> 0] : f \in Faults(T)}
                  \cup {[s |-> d, kind |-> "rej", err |-> "", what |-> "two faults", cost |-> 0] : d \in DoubleFaults(T)}
 Init == ti \in 1..Len(Tuples) /\ c \in Cases(Tuples[ti])
